@@ -107,3 +107,27 @@ fn c06_rc4_ref_symkey2() {
     kani::cover!(true);
     std::mem::forget(enc);
 }
+
+/// Long stream (the keystream index wraps around after 255 bytes): key "Key", 262 bytes of which the
+/// last 6 are symbolic: bytes 256..262 of the ciphertext equal the reference cipher's.
+#[kani::proof]
+#[kani::unwind(264)]
+fn c06_rc4_long_stream() {
+    let tail: [u8; 6] = kani::any();
+    let mut data = [0u8; 262];
+    let mut i = 0;
+    while i < 6 {
+        data[256 + i] = tail[i];
+        i += 1;
+    }
+    let exp = ref_rc4::<262>(b"Key", &data);
+    let enc = Rc4::new(b"Key").encrypt(&data[..]);
+    assert!(enc.len() == 262);
+    let mut i = 250;
+    while i < 262 {
+        assert!(enc[i] == exp[i], "RC4 keystream differs from the reference cipher beyond the first 255 bytes");
+        i += 1;
+    }
+    kani::cover!(true);
+    std::mem::forget(enc);
+}
